@@ -302,7 +302,11 @@ func genSamples(t *rapid.T, c LimitCfg, maxN int) []Sample {
 		}
 		return s
 	})
-	out := rapid.SliceOfN(one, 1, maxN).Draw(t, "samples")
+	lo := 1
+	if maxN >= 8 {
+		lo = minInt(rapid.SampledFrom([]int{1, 1, 8, 30, 100}).Draw(t, "minlen"), maxN)
+	}
+	out := rapid.SliceOfN(one, lo, maxN).Draw(t, "samples")
 	if c.Windowed {
 		start := int64(0)
 		for i := range out {
